@@ -33,6 +33,24 @@ CFG = {
         "Leptos.Hydrate.C05_inert_walk_error",
         # F-C05-2 (outside the grammar of the theorems): raw-text elements keep no child state
         "Leptos.Hydrate.C05_raw_text_child_witness",
+        # Suspend parts and the streamed forms: for every completion schedule the in-order stream / the out-of-order stream after its
+        # scripts / the resolved form is the HTML of the client's view when every position guess of a pending Suspend is right (Agree),
+        # and hydrating it adopts every node (through C07_in_order / C07_out_of_order); F-C05-6 = a wrong guess
+        "Leptos.Hydrate.C05_resolved",
+        "Leptos.Hydrate.C05_stream_in_order",
+        "Leptos.Hydrate.C05_stream_out_of_order",
+        "Leptos.Hydrate.C05_stream_html",
+        "Leptos.Hydrate.C05_stream_hydrates",
+        "Leptos.Hydrate.C05_stream_ready",
+        "Leptos.Hydrate.C05_suspend_position_witness_in_order",
+        "Leptos.Hydrate.C05_suspend_position_witness_out_of_order",
+        "Leptos.Hydrate.C05_suspend_position_agree",
+        "Leptos.Hydrate.compile_inOrd",
+        "Leptos.Hydrate.compile_oooWf",
+        "Leptos.Hydrate.compile_doc",
+        "Leptos.Hydrate.agree_of_ready",
+        "Leptos.Hydrate.html_clientOf",
+        "Leptos.Hydrate.stream_polls",
         # the lemmas the view theorems rest on
         "Leptos.Hydrate.run_view",
         "Leptos.Hydrate.run_list",
@@ -89,7 +107,15 @@ CFG = {
             "(markup characters, entity-like text, `<!>`, `-->`, non-ASCII, white space) with the empty string at 1/6, attribute kinds fixed per tag (with RAW_TEXT_CASES = true in the "
             "harness, off until class raw-text-child is listed: 1 container in 40 is a <textarea>/<style> with one string child); "
             "B = A with every dynamic choice re-drawn (strings changed or kept, Option toggled, Either switched, Vec cleared / halved / extended, "
-            "1/25 of the nodes replaced by a different view); 1 case in 14 is a `frag` op (an element with children pre.., Fragment(items A), post.., rebuilt with items B); 1 in 12 a `mis` op (A hydrated against the DOM of another view: the walk's "
+            "1/25 of the nodes replaced by a different view); 1 case in 5 is a `shyd` op: 1 node in 3 of A wrapped in a Suspend on its own future (a keyed list may get suspending items), "
+            "server form drawn from in-order stream / out-of-order stream (inline scripts applied) / resolve().await.to_html() / to_html(), each future "
+            "ready at render time with 1/4, the others completed before a random poll of 0..4 (any order, also reversed against document order) or at the end; "
+            "forced Suspend coverage before the random cases: 12 containers (top level, element, Vec, tuple, array, Option, Either, Result, EitherOf3, OwnedView, closure, "
+            "Vec inside an element) x sibling before (none / string / element) x sibling after x 7 shapes of the resolved view x pending / ready x every server form; two Suspends "
+            "in 7 completion orders x 5 containers x 4 value shapes; keyed lists with suspending items in all 6 completion orders x 3 positions x 3 forms; "
+            "Fragment items that suspend (op `sfrag`); (with SUSPEND_POSITION_CASES = false in the harness, until class suspend-position is listed, inputs whose "
+            "pending Suspend leaves another Position than the server guesses are skipped); "
+            "1 case in 14 is a `frag` op (an element with children pre.., Fragment(items A), post.., rebuilt with items B; 1 in 3 of those with suspending items); 1 in 12 a `mis` op (A hydrated against the DOM of another view: the walk's "
             "error paths). distinct = distinct op line; a case is trivial (`plain`) when it has no tag (no adjacent strings, no empty string, no "
             "dynamic node, no void/child-less element, no attribute, no change on rebuild)",
     "trusted": [
@@ -103,6 +129,9 @@ CFG = {
         "forward to the typed impls (any_view.rs, any_attribute.rs), which is what the model assumes (`.any` is transparent)",
     ],
     "modelled": [
+        "Suspend (tachys/src/reactive_graph/suspense.rs): to_html_with_buf, to_html_async_with_buf::<false|true> (now_or_never, next_id, push_async / push_fallback + "
+        "push_async_out_of_order, the Position each branch leaves), resolve, hydrate / build (= the value's), rebuild (a task); Keyed / Vec / tuple / array / StaticVec "
+        "to_html_async_with_buf and resolve (items in list order)",
         "expressed through the constructor they share to_html / hydrate / rebuild with (lean/Driver/C05.lean): InertElement (= the static element it was "
         "rendered from; C05_inert_walk), keyed (= Vec of the item views), Result (= Option), u32 / Arc<str> / Cow<str> (= String), EitherOf3, "
         "[T; N] (= tuple), OwnedView (transparent), closures (an AnyView that is always replaced on rebuild)",
@@ -114,9 +143,11 @@ CFG = {
         "Render::{build, rebuild}, Mountable::{mount, unmount, insert_before_this} of the same types through Model/View.lean (C03)",
     ],
     "assumptions": [
-        "sync form only: for a view without async parts the in-order and out-of-order streams concatenate to the sync string (checked on every "
-        "case against the real to_html_stream_in_order / _out_of_order); views with Suspend parts reduce to the sync form of the resolved view "
-        "through C07 (C07_in_order / C07_out_of_order) — stated as a remark in Theorems/C05.lean, not re-proved here",
+        "Suspend parts: a Suspend on a base future is carried as `.any (suspTy fid) (.osome v)` (for to_html / hydrate / build / rebuild with its data present it is "
+        "Option::Some(v)); the server side is Model/Hydrate.compile (to_html_async_with_buf with the Position threaded) run by C07's stream machine (Model/Stream.lean: "
+        "startStream / Run.poll / applyScripts); futures are oneshot channels the harness completes between polls; a Suspend nested in the value of a *pending* Suspend, "
+        "Suspend inside <Suspense> (C07) and nonces are not covered; the out-of-order theorem assumes C07's string hygiene (cleanOps: no marker / <template / <script text in strings)",
+        "Suspend::rebuild runs in a spawned task: the harness runs the tasks to idle (hx_common::sched, FIFO) after each rebuild, the model rebuilds in two phases (syncPart, then the values)",
         "grammar: ordinary containers and void elements of the parser table, nested as the HTML tree builder accepts without implied end tags "
         "(C06's assumption); strings free of NUL/CR (F-C06-3/4); plain / boolean / optional attributes with distinct tokenizable names "
         "(class and style values are normalised differently by SSR and by the DOM: C03/C06); tuples of at most 6 components in the harness",
@@ -131,7 +162,7 @@ CFG = {
         "the repaired hydrate writes during the walk; the model performs the walk first and the writes afterwards (settle), justified by "
         "C05_walk_commutes_with_writes; that the DOM after settle serialises to domA is evaluated by the driver on every case",
         "not built by the harness (stated, correspondence does not cover them): Doctype (outside the HTML parser subset), Static<..> (nightly only), "
-        "ViewTemplate and templates (FROM_SERVER = false), Island / IslandChildren, Suspend with pending futures (C07), EitherKeepAlive, "
+        "ViewTemplate and templates (FROM_SERVER = false), Island / IslandChildren, EitherKeepAlive, "
         "AnyViewWithAttrs, and the views of the leptos / leptos_router / leptos_meta crates (View<T>, Unsuspend, ErrorBoundaryView, routes, meta tags); "
         "a keyed list with string items is rebuilt only by changes at its end (a moved text node leaves its `<!>` separator behind, which the "
         "unkeyed model rebuild does not reproduce comment for comment)",
@@ -157,7 +188,7 @@ CFG = {
                 "forms) -> independent Rust HTML parser -> native DOM -> real hydrate::<true> (outcome / error kind, nodes created) -> real "
                 "rebuild, against a client-built twin; the Lean parser is compared with the Rust parser on every SSR string.",
         "design_ref": "DESIGN.md §6.3, §6.4, §7 C05, §8 F-C05-1",
-        "note": "model hand-written; sync form only (streamed forms reduce through C07); post-hydration rebuild equivalence proved for static "
+        "note": "model hand-written; streamed forms through C07's stream machine with positions added here; post-hydration rebuild equivalence proved for static "
                 "string attributes (rests on C03's rebuild_spec), tested beyond",
         "technique": "Lean 4 proof (induction over view trees; tokenizer lemmas of C06; cursor/sibling invariants over the DOM model) + "
                      "kernel-evaluated refutation witness + differential correspondence on the native DOM",
